@@ -6,24 +6,16 @@ import DarkluaModel.C08.Thm
 For every number system `N` and evaluator primitives `E` that agree (`C08.Agree N E`), on the
 region `H8` (`C08.h8 E e = true`: findings F1–F4 excluded):
 `truthy` ← `C08.truthy_sound`, `str` ← `C08.evaluate_sound_partial`, `single` ← `C08.single_sound`.
-`pure` (exact state preservation of a side-effect-free, non-allocating evaluation) is NOT yet a
-C08 theorem (`pure_sound_partial` gives the frame `σ.tables <+: σ'.tables` only): it is the
-explicit hypothesis `NoAllocExact` until C08 provides it.
+`pure` (exact state preservation of a side-effect-free, non-allocating evaluation) ← `C08.pure_sound_noalloc`.
 -/
 namespace DarkluaModel.Rules
 open DarkluaModel.Evaluator DarkluaModel.Sem
 
-/-- the one statement still to come from C08 -/
-def NoAllocExact (N : NumOps) (E : EvalOps N) : Prop :=
-  ∀ (e : Expr), C08.h8 E e = true → Evaluator.hasSideEffects E false e = false → noAlloc e = true →
-    ∀ (call : CallFn N) (ρ : ExtOracle N) (k : Nat) (env : Env N) (σ σ' : State N) (vs : List (Val N)),
-      evalE call ρ k env e σ = .ok vs σ' → σ' = σ
-
-theorem c08_sound {N : NumOps} {E : EvalOps N} (A : C08.Agree N E) (hp : NoAllocExact N E) :
+theorem c08_sound {N : NumOps} {E : EvalOps N} (A : C08.Agree N E) :
     EvalSound N (c08Api N E) (fun e => C08.h8 E e = true) where
   truthy e b hg ht call ρ k env σ σ' vs h :=
     C08.truthy_sound A call ρ k env e σ σ' vs b hg (by simpa [EvalApi.isTruthy, c08Api, kindOf_isTruthy] using ht) h
-  pure e hg hs hna call ρ k env σ σ' vs h := hp e hg hs hna call ρ k env σ σ' vs h
+  pure e hg hs hna call ρ k env σ σ' vs h := C08.pure_sound_noalloc A call ρ k env e σ σ' vs hg hs hna h
   str e s hg hk call ρ k env σ σ' vs h := by
     have hv : evaluate E e = .string s := by
       simp only [c08Api] at hk
